@@ -7,12 +7,13 @@ from vlib import core
 
 ids = [json.loads(l)["id"] for l in open(os.path.join(V, "properties.jsonl"))]
 na = json.load(open(os.path.join(V, "tools", "not_applicable.json")))
+CLAIMED = set(open(os.path.join(V, "tools", "claimed.txt")).read().split())
 checks, engines = [], []
 claimed = set()
 for p in sorted(glob.glob(os.path.join(V, "props", "C*.py"))):
     pid = os.path.basename(p)[:-3]
     spec, _ = core.load_spec(pid)
-    if spec.get("unclaimed"):
+    if spec.get("unclaimed") or pid not in CLAIMED:
         continue
     claimed.add(pid)
     checks.append({
